@@ -20,7 +20,11 @@ package jwx
 
 import (
 	"bytes"
+	"crypto"
+	"crypto/ecdsa"
+	"crypto/ed25519"
 	"crypto/elliptic"
+	"crypto/rsa"
 	"encoding/base64"
 	"errors"
 	"fmt"
@@ -83,6 +87,48 @@ func ValidateCompactSerialization(token []byte) error {
 		if err != nil || base64.RawURLEncoding.EncodeToString(decoded) != string(segment) {
 			return errors.New("JWS segment is not base64url encoded (without padding)")
 		}
+	}
+	return nil
+}
+
+// ecdsaAlgorithms maps the name of a curve to the only ECDSA signature algorithm that may be used with a key on that curve (RFC7518 §3.4, RFC8812 §3.2).
+var ecdsaAlgorithms = map[string]jwa.SignatureAlgorithm{
+	"P-256":     jwa.ES256,
+	"P-384":     jwa.ES384,
+	"P-521":     jwa.ES512,
+	"secp256k1": jwa.ES256K,
+}
+
+// ValidateAlgorithmForKey returns an error if the signature algorithm does not fit the key the signature is verified with:
+// an ECDSA algorithm is bound to 1 curve, the RSA algorithms need an RSA key and EdDSA an Ed25519 key.
+// jwx checks the key family only: it verifies e.g. an ES256 (SHA-256) signature with a P-384 or P-521 key.
+// The key is a crypto.PublicKey or a jwk.Key; other types of keys are left to the verifier to refuse.
+func ValidateAlgorithmForKey(alg jwa.SignatureAlgorithm, key interface{}) error {
+	if asJWK, ok := key.(jwk.Key); ok {
+		var raw interface{}
+		if err := asJWK.Raw(&raw); err != nil {
+			return err
+		}
+		key = raw
+	}
+	if signer, ok := key.(crypto.Signer); ok {
+		key = signer.Public()
+	}
+	fits := true
+	switch k := key.(type) {
+	case *ecdsa.PublicKey:
+		fits = k.Curve != nil && ecdsaAlgorithms[k.Curve.Params().Name] == alg
+	case *rsa.PublicKey:
+		switch alg {
+		case jwa.RS256, jwa.RS384, jwa.RS512, jwa.PS256, jwa.PS384, jwa.PS512:
+		default:
+			fits = false
+		}
+	case ed25519.PublicKey:
+		fits = alg == jwa.EdDSA
+	}
+	if !fits {
+		return fmt.Errorf("signing algorithm %s does not fit the key (%T)", alg, key)
 	}
 	return nil
 }
